@@ -594,9 +594,14 @@ func (in *Interp) solverSynced() *Solver {
 			s.log = f
 		}
 		s.intMode = in.cfg.Arith != "bv"
+		s.fresh = os.Getenv("GOSMT_FRESH") != ""
 		w.solver = s
 	}
 	s := w.solver
+	if s.fresh {
+		s.freshPC = in.pc
+		return s
+	}
 	n := s.SyncTo(in.pc)
 	for _, c := range in.pc[n:] {
 		s.Assert(c)
